@@ -387,6 +387,71 @@ def mutations(seed):
     return out
 
 
+WS_INSERTS = ["\n", "\r\n", "\r", "\n\n", "\\\n", " \\\n ", "\\", " \\ ", "\t", "\x0c", "\x0b", "\x1f", "\x00",
+              "\u00a0", "\u2003", "\u3000", "\ufeff", " # c\n", "#c\n", "# c", ";", " ; ", ";\n", "\n;", "\n#\n", "\n \n",
+              "\\\n\\\n", "\n\t", " \n"]
+GAP_VARIANTS = ["", " ", "  ", "\t", "\x0c", "\n", "\\\n", " \t "]
+PREFIXES = [")", "(", "]", "[", ",", ";", "\n", "#\n", "# c\n", "\\\n", "\\", "x=", "x =\n", "return ", "lambda: ", ":", "...", "\n\n \n",
+            "\t\n", "\x0c\n", "\ufeff", "\u3000", "1\n", "1;", ")(", "0)or(", "0)\nor("]
+SUFFIXES = [")", "(", "]", ",", ";", ";1", "\n1", "\n-1", "\n+ 1", "\n[0]", "\n,", "\n#", " #", " # c\n+ 1", "\\", "\\\n", "\\\n+1", ":", " if",
+            " else 0", "\n\n", "\n \n\t", "\x00", "\x1a", "\n)", ")(", "\nand 1", " and\n1", "\n== 1", "\nx", " x", ")or(1", ")\nor(1"]
+LINK_OPS = ["+", "-", "*", "and", "or", "==", "<", ",", ""]
+
+
+def near_miss(seed, other, rng, budget):
+    """Strings next to a grammar string at the level of characters between tokens: line breaks, comments,
+    continuations, odd white space, separators, brackets that are unbalanced locally but balance over
+    the whole string, leading/trailing garbage, and two expressions glued over a line break.  Most
+    are not expressions for CPython (so they must be rejected); some are (white-space variants, line
+    breaks inside brackets) and must keep their meaning."""
+    toks = tokenize(seed)
+    n = len(toks)
+    out = []
+
+    def join(parts):
+        return " ".join(p for p in parts if p != "")
+
+    # something inserted in one gap (including before the first and after the last token)
+    for i in range(n + 1):
+        for w in WS_INSERTS:
+            out.append(join(toks[:i]) + w + join(toks[i:]))
+            out.append(join(toks[:i] + [w] + toks[i:]))
+    # one gap rendered differently, all others a single blank
+    for i in range(1, n):
+        for w in GAP_VARIANTS:
+            out.append(" ".join(toks[:i]) + w + " ".join(toks[i:]))
+    # every gap rendered the same way
+    for w in GAP_VARIANTS + ["\n ", " \n"]:
+        out.append(w.join(toks))
+    # closing bracket early, opening bracket late: balanced over the string, not locally
+    pairs = [(i, j) for i in range(1, n) for j in range(i, n)]
+    rng.shuffle(pairs)
+    for i, j in pairs[:budget]:
+        for c, o in ((")", "("), ("]", "[")):
+            for link in ("", "\n", " or ", "\nor ", " + \n", ","):
+                out.append(join(toks[:i]) + c + link + join(toks[i:j]) + o + join(toks[j:]))
+        out.append("(" + join(toks[:i]) + "\n" + join(toks[i:]) + ")")       # legal: break inside brackets
+        out.append("[" + join(toks[:i]) + "\n" + join(toks[i:]) + "][0]")
+    for pre in PREFIXES:
+        out.append(pre + seed)
+        out.append(pre + " " + seed)
+    for suf in SUFFIXES:
+        out.append(seed + suf)
+        out.append(seed + " " + suf)
+    for pre, suf in ((")", "("), ("]", "["), ("1)+(", "\n+(2"), ("1) + (\n", ""), ("", ") + (\n1"), ("(", "\n"), ("\n(", ")\n"),
+                     ("(\n", "\n)"), ("[\n", "\n]"), ("(\\\n", ")"), ("(#c\n", ")"), ("(", "#c\n)"), ("(", "#c)")):
+        out.append(pre + seed + suf)
+    # two expressions over a line break / separator
+    for op in LINK_OPS:
+        for br in ("\n", " \n ", "\r\n", " # c\n", ";", "\\\n", "\n\n"):
+            out.append(seed + " " + op + br + other)
+            out.append(seed + br + op + " " + other)
+            out.append("(" + seed + " " + op + br + other + ")")
+            out.append(seed + ") " + op + " (" + br + other)
+            out.append(seed + ")" + br + op + " (" + other)
+    return out
+
+
 HOSTILE = [
     "__import__('os')", "__import__('os').system('echo pwned > /tmp/c20_pwned')", "x.__class__",
     "x.__class__.__mro__[1].__subclasses__()", "(lambda: 0)()", "(lambda: x)()", "f'{x}'", "f'{x[0]!r:>{x[1]}}'",
@@ -420,6 +485,10 @@ HOSTILE = [
     "(" * 60 + "x" + ")" * 60, "(" * 300 + "x" + ")" * 300, "-" * 90 + "1", "not " * 50 + "x", "-" * 5000 + "1",
     "x[0]+" * 400 + "1", "x[0]+" * 3000 + "1", "[" * 120 + "]" * 120, "(x,)" + "[0]" * 100, "x" + "[0]" * 3000,
     "1 < " * 300 + "2", " and ".join(["x[0]"] * 500), "x[0] == 1 and " * 100 + "True",
+    "x[0] > 5) or (\nx[1] > 5", "1) + (\n2", "1\n-1", "x[0]\n[1]", "x[0] == 1\nand x[1] == 2", "x[0] # comment\n+ 1", "x\n,",
+    "(x[0] == 1\n and x[1] == 2)", "x[0] + 1\n", "[x[0],\n x[1]][1]", "x[0] +\\\n1", "(x[0] # c\n + 1)", "x[0]) + (x[1]", "x[0]] + [x[1]",
+    "1) or (2", "x[0] == 1;", "x[0] == 1; 2", "x[0]\\", "\\\nx[0]", "x[0]\n\n", "\n\nx[0]", "x[0]\r", "x[0]\r\n+1", "x [0]", "x\t[0]", "x\x0c[0]",
+    "nan", "inf", "-inf", "Infinity", "  NaN ", "007", "0_1", "\u0663", "\uff11\uff12", "1e-3", "1_000", " 2 ", "-3", "+0.5", "1e5", "0x1f", "1__0", "_1",
     "1" * 5000, "1" + "0" * 4300, "1." + "0" * 5000, "x[" + "1" * 50 + "]", "x[-" + "1" * 50 + ":]",
 ]
 
@@ -544,6 +613,18 @@ def run(chk: Check):
     for s in seeds:
         muts += mutations(s)
     streams["single-token-mutations"] = muts
+    n_near = 120 if T else 14
+    near_seeds = []
+    while len(near_seeds) < n_near + 1:
+        sd = g.string()
+        if 3 <= len(tokenize(sd)) <= 16:
+            near_seeds.append(sd)
+    near = []
+    for a, b in zip(near_seeds, near_seeds[1:]):
+        near += near_miss(a, b, rng, 40 if T else 12)
+    for a in ["x[0] > 5", "x[0] + 1", "1", "x[0] == 1 and x[1] == 2", "not x[0] or x[1:] == (1, 0)"]:
+        near += near_miss(a, "x[1] > 5", rng, 40 if T else 12)
+    streams["near-miss-strings"] = near
 
     seen = set()
     req = []
@@ -557,6 +638,8 @@ def run(chk: Check):
             seen.add(s)
             if fixed_x.get(s):
                 xs = fixed_x[s]
+            elif name == "near-miss-strings":
+                xs = [jx(rng.choice([t for t in tuples if len(t) == 4])), jx(rng.choice(tuples))]
             elif name in ("hostile", "corpus"):
                 xs = [jx(t) for t in [(), (1,), (0, 2), (2, 1, 0, -1), (0.5, -1, 1, 2), (0, 0, 0, 0)]] + [{"l": [{"i": "1"}, {"i": "0"}]}, None]
             elif name == "exhaustive-depth2" and T:
@@ -622,8 +705,17 @@ def run(chk: Check):
             if c == "InvalidExpression" and r["in_grammar"]:
                 chk.violation("C20:Expression.__init__:rejected-inside-grammar:" + r.get("message", "")[:30],
                               "a string of the property's grammar is rejected: " + r.get("message", ""), wit)
-        if r["parse"] == "SyntaxError" and c == "ok":
-            chk.violation("C20:Expression.__init__:accepted-unparseable", "accepted a string CPython cannot parse", wit)
+        if c == "ok" and (r["parse"] != "ok" or r.get("compile", "ok") != "ok"):
+            stats["accepted_but_cpython_rejects"] = stats.get("accepted_but_cpython_rejects", 0) + 1
+            chk.violation("C20:Expression.__init__:accepted-string-cpython-rejects",
+                          "Expression accepts a string that CPython does not compile as an expression "
+                          "(ast.parse: %s, compile(src.strip(), '<s>', 'eval'): %s)" % (r["parse"], r.get("compile")),
+                          dict(wit, src_repr=repr(short)))
+        if c != "ok" and r["parse"] == "ok":
+            stats["cpython_parses"] = stats.get("cpython_parses", 0) + 1
+        if r.get("same_tree") is False:
+            chk.violation("C20:Expression.__init__:tree-differs-from-cpython-parse",
+                          "the tree held by the Expression is not ast.parse(src.strip(), mode='eval')", dict(wit, src_repr=repr(short)))
         if r.get("resource_skipped"):
             stats["resource_skipped"] += 1
         for j, e in enumerate(r["evals"]):
@@ -693,8 +785,18 @@ def run(chk: Check):
                          % stats["other_exception_at_construction"])
 
     # ---- correspondence: model vs implementation, specification vs CPython
-    todo = [i for i, r in enumerate(recs) if r.get("coq") and len(r["coq"]) < 200000
-            and r["construct"] in ("ok", "InvalidExpression")]
+    todo = []
+    seen_terms = set()
+    for i, r in enumerate(recs):
+        if not (r.get("coq") and len(r["coq"]) < 200000 and r["construct"] in ("ok", "InvalidExpression")):
+            continue
+        if r["stream"] == "near-miss-strings":
+            # white-space variants parse to the tree of their seed: run each distinct tree once
+            k = (r["coq"], r["construct"])
+            if k in seen_terms:
+                continue
+            seen_terms.add(k)
+        todo.append(i)
     unser = sum(1 for r in recs if r["parse"] == "ok" and not r.get("coq"))
     for r in recs:
         keep = []
